@@ -288,6 +288,12 @@ def int_types_bounded_instance():
         else:
             s = rng.randint(0, 3, size=(K, K), dtype=np.int64) * (hi // 2)
         s = s.astype(dt)
+        # any memory layout of the score matrix (column-major, the transposed view of a matrix computed the other way round)
+        lay = (inp['seed'] // 3) % 3
+        if lay == 1:
+            s = np.asfortranarray(s)
+        elif lay == 2:
+            s = np.ascontiguousarray(s.T).T
         s0 = s.copy()
         res = {'optimal': pa._mapping_from_score_matrix(s, 'optimal'), 'greedy': pa._mapping_from_score_matrix(s, 'greedy'),
                'score': s0, 'untouched': bool(np.array_equal(s, s0) and s.dtype == dt)}
@@ -302,7 +308,11 @@ def int_types_bounded_instance():
         ref = np.stack([(lab == k) for k in range(K)]).astype(mdt)[:, None, :]            # (K, 1, T)
         perm = rng.permutation(K)
         al = pa.OraclePermutationAlignment('multiply', ['optimal', 'greedy'][inp['seed'] % 2])
-        res['oracle'] = (np.asarray(al(ref[perm].copy(), ref.copy())), ref)
+        est = ref[perm].copy()
+        if (inp['seed'] // 7) % 2:
+            # estimate and reference in different memory layouts: the estimate is the (K, F, T) view of an (F, K, T) array
+            est = np.ascontiguousarray(np.transpose(est, (1, 0, 2))).transpose(1, 0, 2)
+        res['oracle'] = (np.asarray(al(est, ref.copy())), ref)
         return res
 
     def ensures(sp, inp, out):
